@@ -299,19 +299,21 @@ Definition link_url (cu : cursor) (p : str) (d : decision) (rq : url) (x : str) 
   mkUrl p ((ckey cu, VS (cenc cu x)) :: d_extra d ++ qdel (ckey cu) (qdel k_last (u_query rq))).
 
 (* page, more?, query of the next link *)
-Definition reg_page (rk : kind) (cu : cursor) (L : list item) (cap : nat) (rq : url) (d : decision)
+Definition reg_page (rk : kind) (cu : cursor) (vis : item -> bool) (L : list item) (cap : nat) (rq : url) (d : decision)
   : list item * bool * query :=
   let rest := after (cursor_read cu (u_query rq)) L in
   let m := page_len cap rq d in
   let page := firstn m rest in
   let more := (m <? length rest)%nat in
-  let items := if reg_filters rk rq d then filter_referrers page (qget_s k_at (u_query rq)) else page in
+  let shown := filter vis page in   (* entries the registry does not show (e.g. no permission) are passed over *)
+  let items := if reg_filters rk rq d then filter_referrers shown (qget_s k_at (u_query rq)) else shown in
   (items, more, u_query (link_url cu [] d rq (last_name page))).
 
 Section Registry.
   Variable rk : kind.       (* which endpoint: only the referrers endpoint filters *)
   Variable cu : cursor.
   Variable npath : nat -> str -> str.   (* path of the next link for request i under path p *)
+  Variable vis : item -> bool.          (* which entries the registry shows at all *)
   Variable L : list item.
   Variable cap : nat.
   Variable ds : nat -> decision.
@@ -322,7 +324,7 @@ Section Registry.
 
   Definition reg_serve (i : nat) (rq : url) : response :=
     let d := ds i in
-    let '(items, more, lq) := reg_page rk cu L cap rq d in
+    let '(items, more, lq) := reg_page rk cu vis L cap rq d in
     mkResp 200 false mediaTypeImageIndex true (d_doc_len d) (d_doc_len d + d_pad d) items
            (if more then [c_lt :: render i rq (mkUrl (npath i (u_path rq)) lq) ++ c_gt :: trailer i] else [])
            (d_fhdr d) (d_fann d).
